@@ -212,7 +212,8 @@ impl Item {
                         let next = Item::contains(items.get(i).unwrap(), pattern, depth);
                         match next {
                             Ok(pattern_idx) => return Ok(pattern_idx),
-                            Err(()) => (),
+                            // Skip the points inside the element that did not match
+                            Err(()) => depth += Item::size(items.get(i).unwrap()) - 1,
                         }
                     }
                 }
